@@ -513,7 +513,7 @@ def leaves_rule(ctx, rule):
             continue
         rep.analysed(fn)
         names = set()
-        for body in F.with_closures(fn):
+        for body in common.bodies_with_helpers(F, fn):
             for bi, t in body.calls():
                 names.add(t["callee"].get("name"))
         looks = [(bi, t) for bi, t in fn.calls() if t["callee"].get("name") == look]
